@@ -121,9 +121,15 @@ impl Stream {
         {
             self.topics_ids.remove(&old_topic_name.clone());
             self.topics_ids.insert(name.to_owned(), topic_id);
-            let topic = self.get_topic_mut(id).with_error_context(|error| {
-                format!("{COMPONENT} (error: {error}) - failed to get mutable reference to topic with id {id}")
-            })?;
+            // The name index has just changed: look the topic up by its numeric ID, not by the
+            // identifier the caller used (which may be the old name).
+            let topic = self
+                .topics
+                .get_mut(&topic_id)
+                .ok_or(IggyError::TopicIdNotFound(topic_id, self.stream_id))
+                .with_error_context(|error| {
+                    format!("{COMPONENT} (error: {error}) - failed to get mutable reference to topic with id {id}")
+                })?;
 
             topic.name = name.to_owned();
             topic.message_expiry = message_expiry;
